@@ -4,9 +4,13 @@ MCIds == {1, 2}
 MCWorkers == {0, 1}
 \* 2 ids sharing one worker, or one worker each
 MCWorkerMaps == { [i \in MCIds |-> 0], [i \in MCIds |-> i - 1] }
+\* 3 ids on 2 workers (generator only): every way of sharing, id 1 on worker 0
+MCIds3 == {1, 2, 3}
+MCWorkerMaps3 == { f \in [MCIds3 -> MCWorkers] : f[1] = 0 }
 MCSharedOnly == { [i \in MCIds |-> 0] }
 C(k, e, o) == [k |-> k, e |-> e, o |-> o]
 MCCfgQuick == { C("every", 1, 0), C("every", 2, 1), C("cron", 3, 0) }
-MCCfgThorough == { C("every", 1, 0), C("every", 1, 1), C("every", 2, 1), C("every", 3, 0), C("cron", 2, 0), C("cron", 3, 1) }
+\* (a negative offset runs the task before its scheduled time: Schedulable.Offset allows it)
+MCCfgThorough == { C("every", 1, 0), C("every", 1, 1), C("every", 2, 1), C("every", 3, 0), C("cron", 2, 0), C("cron", 3, 1), C("every", 2, -1), C("cron", 3, -1) }
 MCCfgLive == { C("every", 1, 0), C("cron", 2, 1) }
 =============================================================================
